@@ -67,6 +67,17 @@ def histories(draw):
             continue
         if gen.apply_edit_to_picture(G, op):
             ops.append(op)
+            if op[0] == "rename_cells" and draw(st.booleans()):
+                # the old name is taken again by a new definition
+                sp = G.space(tuple(op[1]))
+                if G.find_cells(sp, op[2]) is None:
+                    op2 = ["new_cells", op[1], gen.gen_cells_def(draw, G, sp, op[2], FEAT)]
+                    if gen.apply_edit_to_picture(G, op2):
+                        ops.append(op2)
+            if op[0] == "rename_space" and draw(st.booleans()):
+                op2 = ["new_space", op[1][:-1], op[1][-1], None, None]
+                if gen.apply_edit_to_picture(G, op2):
+                    ops.append(op2)
     return {"ops": ops}
 
 
